@@ -94,7 +94,7 @@ def _abstract_ops(log, role, new):
         if e["kind"] == "denied":
             continue
         ops.append({"n": e["n"], "kind": e["kind"], "p": role(e["path"]), "p2": role(e["path2"]),
-                    "d": e.get("dclass", ""), "extra": e.get("extra", -1)})
+                    "d": e.get("dclass", ""), "extra": e.get("extra", -1), "via": e.get("via", "")})
     return ops
 
 
@@ -208,8 +208,8 @@ def run_editfault(case):
         k = 0
         for at in range(1, nops + 1):
             kinds = ["crash", "eacces", "enospc"]
-            if ref_ops[at - 1]["kind"] == "write":
-                kinds += ["torn", "torncrash"]
+            if ref_ops[at - 1]["kind"] == "write" or ref_ops[at - 1].get("via") == "oswrite":
+                kinds += ["torn", "torncrash"]        # (for os.write a torn write is a short count, not an error)
             for kind in kinds:
                 k += 1
                 plan = {"at": at, "kind": kind, "k": 1}
